@@ -197,6 +197,15 @@ def gen_settings(rng, max_pto=2, allow_n3lo=False, cheap=False):
         th["QED"] = 0
     if rng.random() < 0.1:
         th["CKM"] = [0.97428, 0.2253, 0.00347, 0.2252, 0.97345, 0.041, 0.00862, 0.0403, 0.999152]
+    # optional keys may simply be absent (the runner falls back to defaults for these)
+    for k in ("MZ", "SIN2TW"):
+        if rng.random() < 0.12:
+            th.pop(k, None)
+    for k in ("ModEv", "Qref", "nfref", "alphas", "XIR", "XIF", "IC", "IB", "MaxNfPdf", "HQ"):
+        if rng.random() < 0.06:
+            th.pop(k, None)
+    if ob.get("ProjectileDIS") == "electron" and rng.random() < 0.1:
+        ob.pop("ProjectileDIS")
     if pto >= 3:
         # N3LO: only affordable on a 5-node grid (DESIGN §2.5)
         ob["interpolation_xgrid"] = list(GRIDS_LOG[0])
